@@ -64,9 +64,9 @@ class JoinLiveness(Monitor):
 
 def cases(seed, tier):
     rng = random.Random('c04-%s' % seed)
-    n_shapes = 36 if tier == 'quick' else 400
-    n_rev = 14 if tier == 'quick' else 150
-    n_gen = 10 if tier == 'quick' else 120
+    n_shapes = 90 if tier == 'quick' else 600
+    n_rev = 35 if tier == 'quick' else 250
+    n_gen = 25 if tier == 'quick' else 200
     out = []
     for i in range(n_shapes):
         prng = random.Random(rng.getrandbits(64))
